@@ -20,7 +20,7 @@ def count_events(callA, opcodes=False):
     return n, res
 
 
-def run_preempted(callA, callB, k, opcodes=False):
+def run_preempted(callA, callB, k, opcodes=False, only_files=None, only_codes=None):
     """-> (events seen before firing or in total, resA, resB, where) ; resX = ('ok', value) | ('exc', 'Type: msg')."""
     root = _a5_root()
     state = {"count": 0, "fired": False, "resB": None, "where": None}
@@ -43,6 +43,10 @@ def run_preempted(callA, callB, k, opcodes=False):
         if state["fired"]:
             return None
         if event == "call" and frame.f_code.co_filename.startswith(root):
+            if only_files is not None and frame.f_code.co_filename not in only_files:
+                return None
+            if only_codes is not None and frame.f_code not in only_codes:
+                return None
             if opcodes:
                 frame.f_trace_opcodes = True
             return local
